@@ -60,6 +60,20 @@ func loadCaseRun(col *Collector, lc loadCase, tag string) {
 		cs.Impl = fmt.Sprintf("%s exit=%d", what, r.exit)
 		return !abnormal && r.exit == 0
 	}
+	if lc.format == "yaml" && lc.envFile == "" {
+		// the same document found by default resolution (tasks.yaml in the start directory, no -c)
+		ddir := filepath.Join(dir, "default")
+		os.MkdirAll(ddir, 0755)
+		os.WriteFile(filepath.Join(ddir, "tasks.yaml"), []byte(lc.text), 0644)
+		r := runTaskctl(ddir, nil, 8*time.Second, "list")
+		if r.timedOut || r.panicked || (r.exit != 0 && r.exit != 1) {
+			cs.Fail, cs.Sig = fmt.Sprintf("list (default config resolution): exit=%d timeout=%v: %s", r.exit, r.timedOut, clipStr(firstPanicLine(r.stderr), 200)), "c15-default-resolution-crash"
+		}
+	}
+	if cs.Fail != "" {
+		col.Add(cs)
+		return
+	}
 	if check("list", "-c", cfgPath, "list") {
 		cs.Tags = append(cs.Tags, "loaded")
 		ok := check("validate", "validate", cfgPath)
@@ -165,6 +179,7 @@ func runC15(col *Collector, tier string, seed int64) {
 		"import:\n", "import: other.yaml\n", "import: [null]\n", "import: [3]\n", "import: [[a]]\n", "import: {a: b}\n", "import: [\".\"]\n", "import: [\"..\"]\n", "import: [\"cfg.yaml\"]\n", "import: [\"\"]\n", "import: [\"http://127.0.0.1:1/x.yaml\"]\n",
 		"variables:\n", "variables: [a]\n", "variables: {a: {b: c}}\n", "variables: {a: null}\n", "output: 3\n", "output: nosuch\ntasks:\n  t: {command: [\"true\"]}\n", "debug: maybe\n",
 	}
+	hand = append(hand, "import: [\"no-such-file.yaml\"]\ntasks:\n  t: {command: [\"true\"]}\n", "import: [\"no-such-dir/\"]\n", "import: [\"default\"]\ntasks:\n  t: {command: [\"true\"]}\n")
 	for _, h := range hand {
 		add(loadCase{desc: "hand-written", format: "yaml", text: h, tasks: []string{"t"}, pipes: []string{"p"}}, "degenerate")
 	}
